@@ -28,6 +28,9 @@ func Corpus() []opsim.Scenario {
 		{Cfg: cfg, Acts: []opsim.Action{{Kind: "Boot"}, {Kind: "Tick", C: 1}, {Kind: "Tick", C: 2}, {Kind: "FinishWait", Q: 1, Short: true}, {Kind: "Stop"}, {Kind: "Elapse", Q: 1}, {Kind: "Finish", Q: 2, Ok: true}}},
 		// a short delay that ends by itself, then stop inside the retried execution
 		{Cfg: cfg, Acts: []opsim.Action{{Kind: "Boot"}, {Kind: "Tick", C: 1}, {Kind: "FinishWait", Q: 1, Short: true}, {Kind: "Elapse", Q: 1}, {Kind: "Stop"}, {Kind: "Finish", Q: 1, Ok: true}}},
+		// Shutdown() before Start(): the queues created afterwards must not run anything
+		{Cfg: []opsim.Hook{{Id: 1, Startup: new(int), Sched: []opsim.SB{{Name: 1, Queue: 1, Cron: 1}}}},
+			Acts: []opsim.Action{{Kind: "Stop"}, {Kind: "Boot"}, {Kind: "Tick", C: 1}, {Kind: "Finish", Q: 0, Ok: true}}},
 		// stop during start-up
 		{Cfg: []opsim.Hook{{Id: 1, Startup: new(int), Kube: []opsim.KB{{Name: 1, ExecSync: true}}}},
 			Acts: []opsim.Action{{Kind: "Boot"}, {Kind: "Stop"}, {Kind: "Finish", Q: 0, Ok: true}}},
